@@ -45,7 +45,7 @@ class Prop(object):
     ID = 'C13'
     LEVEL = 'model_checking'
     TECHNIQUE = 'exhaustive exploration of all operation sequences up to the depth bound on the real code under an owned (recording / scripted) random source'
-    RULE = ('every sequence up to the depth bound over the menu {passphrase-encrypt (2 messages x 3 ciphers), key-encrypt (RSA, Curve25519, P-256; repeated '
+    RULE = ('every sequence up to the depth bound over the menu {passphrase-encrypt (2 messages x 3 ciphers), key-encrypt (RSA, Curve25519, P-256, P-384, P-521; repeated '
             'identical arguments allowed), multi-recipient encrypt (keys + passphrase; two passphrases), protect (2 keys x 2 configurations)}, each run under the recording source and under two '
             'scripted sources. One state = one history (sequence of operations); a transition = one operation with all its random fields checked.')
     ASSUMPTIONS = ['PGPy draws session keys, prefixes, salts and IVs through os.urandom (interposed); randomness inside OpenSSL (PKCS#1 padding, ephemeral '
@@ -64,6 +64,8 @@ class Prop(object):
         for rc in ('rsa2048', 'cv25519', 'ecdh-p256'):
             m.append(('key', 'm1', rc, 'AES256'))
         m.append(('key', 'm1', 'cv25519', 'CAST5'))
+        m.append(('key', 'm2', 'ecdh-p384', 'AES192'))
+        m.append(('key', 'm1', 'ecdh-p521', 'AES128'))
         m.append(('multi', 'm2', 'Camellia128'))
         m.append(('multipass', 'm1', 'AES128'))
         m.append(('protect', 'kA', 'AES256', 'SHA256'))
